@@ -905,3 +905,144 @@ func ruleC04BucketOnce(c *Ctx) {
 	}
 	c.Check(len(why) == 0, "c04.bucket-once", "ToCatalog", c.P.Pos(f.Pos()), fmt.Sprintf("%d explicit bucket start(s), each for an absent key", n), strings.Join(uniq(why), "; "))
 }
+
+// ---------------------------------------------------------------------------------------------------------------------
+// go.nil-test-sibling, indexed form — the same contradiction for the elements of one argument list: `if args[0] != nil {
+// to = TextOf(args[1]) }` (own probe of round 11 in DATERANGE: the upper bound is taken when the LOWER one is not NULL — a
+// NULL upper bound renders as the text of nil, a NULL lower bound leaves a given upper bound out).
+func init() {
+	for _, id := range allProps() {
+		registerLate(id, ruleGoNilTestSiblingIndexed)
+	}
+}
+
+// constElem: v is a load of s[k] with constant k.
+func constElem(v ssa.Value) (ssa.Value, int64, bool) {
+	ld, ok := v.(*ssa.UnOp)
+	if !ok || ld.Op != token.MUL {
+		return nil, 0, false
+	}
+	ia, ok := ld.X.(*ssa.IndexAddr)
+	if !ok {
+		return nil, 0, false
+	}
+	k, isK := constIntOf(ia.Index)
+	if !isK {
+		return nil, 0, false
+	}
+	return ia.X, k, true
+}
+
+func ruleGoNilTestSiblingIndexed(c *Ctx) {
+	c.Doc("go.nil-test-sibling/indexed", "an element s[i] of a slice (constant i) is not read under the test `s[j] != nil` of another element of the same slice when no test of s[i] covers the read and s[j] itself is not read anywhere that test holds: the test names the wrong element (the functions reachable from the ones this property's rules analyse)")
+	reach := c.reachableFromAnalysed()
+	var fns []*ssa.Function
+	for _, f := range c.P.ModFuncs {
+		if len(f.Blocks) == 0 || !strings.HasPrefix(funcPkgPath(f), modPath) || len(f.TypeArgs()) > 0 {
+			continue
+		}
+		r := f
+		for r.Parent() != nil {
+			r = r.Parent()
+		}
+		if reach[r] {
+			fns = append(fns, f)
+		}
+	}
+	sort.Slice(fns, func(i, j int) bool { return c.P.funcKey(fns[i]) < c.P.funcKey(fns[j]) })
+	n, reads := 0, 0
+	for _, f := range fns {
+		n++
+		type rd struct {
+			s  ssa.Value
+			k  int64
+			in ssa.Instruction
+		}
+		var all []rd
+		allInstrs(f, func(_ *ssa.BasicBlock, in ssa.Instruction) {
+			if v, isV := in.(ssa.Value); isV {
+				if s, k, ok := constElem(v); ok {
+					all = append(all, rd{s, k, in})
+				}
+			}
+		})
+		var bad []string
+		for _, r := range all {
+			reads++
+			// a read that only feeds a nil test is the test itself
+			onlyTest := true
+			if refs := r.in.(ssa.Value).Referrers(); refs != nil {
+				for _, u := range *refs {
+					if bo, isBO := u.(*ssa.BinOp); isBO && (bo.Op == token.EQL || bo.Op == token.NEQ) {
+						continue
+					}
+					if _, dbg := u.(*ssa.DebugRef); dbg {
+						continue
+					}
+					onlyTest = false
+				}
+			}
+			if onlyTest {
+				continue
+			}
+			own := false
+			var sib []fact
+			var sibK []int64
+			for _, fc := range factsAt(r.in.Block()) {
+				ptr := nilFactPtr(fc)
+				if ptr == nil {
+					continue
+				}
+				s, k, ok := constElem(ptr)
+				if !ok || s != r.s {
+					continue
+				}
+				if k == r.k {
+					own = true
+				} else {
+					sib = append(sib, fc)
+					sibK = append(sibK, k)
+				}
+			}
+			if own {
+				continue
+			}
+			for i, fc := range sib {
+				used := false
+				for _, e := range all {
+					if e.s != r.s || e.k != sibK[i] {
+						continue
+					}
+					// a real use (not the test itself) of the tested element where the test holds
+					isUse := false
+					if refs := e.in.(ssa.Value).Referrers(); refs != nil {
+						for _, u := range *refs {
+							if bo, isBO := u.(*ssa.BinOp); isBO && (bo.Op == token.EQL || bo.Op == token.NEQ) {
+								continue
+							}
+							if _, dbg := u.(*ssa.DebugRef); dbg {
+								continue
+							}
+							isUse = true
+						}
+					}
+					if !isUse {
+						continue
+					}
+					for _, g := range factsAt(e.in.Block()) {
+						if g.cond == fc.cond && g.truth == fc.truth {
+							used = true
+						}
+					}
+				}
+				if !used {
+					bad = append(bad, fmt.Sprintf("%s: element %d is read under the nil test of element %d, which is not read anywhere that test holds, and under no test of its own", c.P.Pos(r.in.Pos()), r.k, sibK[i]))
+				}
+			}
+		}
+		if len(bad) > 0 {
+			c.Fail("go.nil-test-sibling/indexed", c.P.funcKey(f), c.P.Pos(f.Pos()), strings.Join(uniq(bad), "; "))
+		}
+	}
+	c.Check(n > 0, "go.nil-test-sibling/indexed", "inventory", "-", fmt.Sprintf("%d functions, %d reads of constant elements; none under a sibling element's nil test only", n, reads), "no function analysed")
+}
